@@ -49,6 +49,10 @@ func (u *Unknown) ReadFrom(r io.Reader) (int64, error) {
 		return cr.readCount, err
 	}
 
+	if size > MaxMetadataSize {
+		return cr.readCount, ErrTooLong
+	}
+
 	codeSize := varint.UvarintSize(v)
 	sizeSize := varint.UvarintSize(size)
 	buf := make([]byte, codeSize+sizeSize+int(size))
